@@ -33,6 +33,7 @@ RULE = (
     "interpreters; schedule class: tie-heavy scores, identical chunk sizes, 1 worker vs 2..8 workers under perturbed task schedules, result files compared byte for byte. Non-trivial = a variant whose chunk size is smaller than the table, or >1 worker with >=2 "
     "threads observed, or Parquet input; distinct = (table seed, variant)."
     " Every sixth table is rescored with ensemble=True (baseline and variants)."
+    " Every seventh table has a retention-time key column that is empty for 20% of the spectra."
 )
 ASSUMPTIONS = [
     "tolerances: scores rtol 1e-9 for the closed-form learner, 2e-3 for LinearSVC on text-vs-Parquet only (its iterative solver, tol 1e-4, amplifies the 1-ulp feature differences of pandas' float parser; differences up to 5e-5 were observed); q-values rtol 1e-5 (float32 / text formatting); PEPs rtol 1e-6 when the scores of both runs are bit-identical, else not compared numerically (triqler's spline fit amplifies a 1-ulp score difference to PEP differences of several percent)",
@@ -159,10 +160,20 @@ def make_table(rng, case):
         tab["db"] = db
         return tab
     grouped = bool(case["index"] % 3 == 1)
+    missing_rt = bool(case["index"] % 7 == 3)
+    keys = [("ExpMass",), ("filename", "ExpMass"), ()][case["index"] % 3]
+    if missing_rt:
+        keys = tuple(keys) + ("ret_time",)
     tab = psm.psm_table(rng, n_spectra=int(rng.integers(120, 330)), mult_max=int(rng.integers(1, 5)),
-                        key_cols=[("ExpMass",), ("filename", "ExpMass"), ()][case["index"] % 3], n_files=2,
+                        key_cols=keys, n_files=2,
                         levels=(("ModifiedPeptide",) if case["index"] % 4 == 0 else ()), shuffle=not grouped,
                         n_info=2, n_noise=int(rng.integers(1, 22)), sep_strength=3.0, pi1=0.55)
+    if missing_rt:
+        # an optional spectrum-key column (retention time) that the search engine left empty for some spectra:
+        # all PSMs of such a spectrum carry the missing value; the scan number still tells the spectra apart
+        specs = tab["truth"]["spec"].values
+        gone = set(np.unique(specs)[rng.random(len(np.unique(specs))) < 0.2].tolist())
+        tab["df"].loc[[s_ in gone for s_ in specs], "ret_time"] = np.nan
     return tab
 
 
